@@ -284,13 +284,16 @@ func init() {
 			{Funcs: `^datacodec\.(write|read)(Int64|Int32|Int16|Int8|Bool|Float32|Float64)$`, OnlyCt: true, Classes: append([]string{"index", "alloc", "nil"}, lemmaClasses...)},
 			{Funcs: `^datacodec\.lemmaVarintCanonical$`, OnlyCt: true, Classes: lemmaClasses},
 			// [unsigned vint] / [vint] of the duration type: minimal size, prefix bits, big-endian payload, zig-zag
-			{Funcs: `^primitive\.((Write|Read|LengthOf)UnsignedVint|(en|de)codeZigZag)$`, OnlyCt: true, Classes: append([]string{"unwind"}, lemmaClasses...)},
+			{Funcs: `^primitive\.((Write|Read|LengthOf)UnsignedVint|(en|de)codeZigZag|WriteVint)$`, OnlyCt: true, Classes: append([]string{"unwind"}, lemmaClasses...)},
+			// decimal = [int] scale + varint unscaled; duration = vints months, days, nanoseconds in that order
+			{Funcs: `^datacodec\.(writeDecimal|writeDuration)$`, OnlyCt: true, Classes: append([]string{"index", "alloc", "nil"}, lemmaClasses...)},
 		},
 		Tests:   []BoundedTest{vb},
 		Bounded: []string{"varint (minimal two's complement of arbitrary-precision integers): the byte-level contracts of writeBigInt/readBigInt are ASSUMED by the proof and checked only by the bounded execution listed under bounded_executions"},
 		Assume: []string{
 			"covered in addition: [unsigned vint] and zig-zag [vint] of the duration type (minimal size against the specification's rule, prefix bits and big-endian payload on the write side for all 2^64 values; on the read side the value for encodings of up to 6 bytes and the byte count for all)",
-			"NOT covered: decimal scale prefix, duration component order, date offset, inet, uuid byte formats and the collection/tuple/UDT framing (their contracts are not written)",
+			"covered in addition (write side): decimal = 4-byte big-endian scale followed by the varint bytes of the unscaled value; duration = three zig-zag vints in the order months, days, nanoseconds (total length, and position and value of each component that fits one byte)",
+			"NOT covered: date offset, inet, uuid byte formats, the read side of decimal and duration, and the collection/tuple/UDT framing (their contracts are not written)",
 		}})
 	reg(&PropSpec{ID: "C11", Title: "CQL value codecs round-trip every value (scalar numeric and boolean codecs)", DesignRef: "DESIGN.md §4 C11",
 		Groups: []Group{
